@@ -4,7 +4,7 @@ use std::sync::atomic::{AtomicBool, AtomicPtr, AtomicU64, Ordering};
 use std::sync::Arc;
 
 use parking_lot::Mutex;
-use tokio::sync::{oneshot, Semaphore};
+use tokio::sync::{oneshot, OwnedSemaphorePermit, Semaphore};
 
 use crate::batch::Batch;
 use crate::error::{Error, Result};
@@ -39,16 +39,27 @@ struct CommitBatch {
 	count: u32, // Number of entries in the batch
 	applied: AtomicBool,
 	complete_tx: Mutex<Option<oneshot::Sender<Result<()>>>>,
+	// Flow-control permit. It belongs to the queue slot, not to the caller:
+	// it is released when the last reference to this entry goes away, i.e.
+	// only after the entry has been dequeued. A commit that fails (WAL or
+	// apply error) returns to its caller while its entry may still sit in
+	// `pending` behind an unapplied batch; if the permit were released at that
+	// point, enough such failures would overflow the fixed-size queue.
+	_permit: OwnedSemaphorePermit,
 }
 
 impl CommitBatch {
-	fn new(count: u32) -> (Arc<Self>, oneshot::Receiver<Result<()>>) {
+	fn new(
+		count: u32,
+		permit: OwnedSemaphorePermit,
+	) -> (Arc<Self>, oneshot::Receiver<Result<()>>) {
 		let (tx, rx) = oneshot::channel();
 		let commit = Arc::new(Self {
 			seq_num: AtomicU64::new(0),
 			count,
 			applied: AtomicBool::new(false),
 			complete_tx: Mutex::new(Some(tx)),
+			_permit: permit,
 		});
 		(commit, rx)
 	}
@@ -271,10 +282,13 @@ impl CommitPipeline {
 		#[cfg(surrealkv_verif)]
 		crate::verif::yp("commit:stall_passed");
 
-		// Acquire permit for flow control
-		let _permit = self.commit_sem.acquire().await.map_err(|_| Error::PipelineStall)?;
+		// Acquire permit for flow control; it travels with the queue entry.
+		let permit = Arc::clone(&self.commit_sem)
+			.acquire_owned()
+			.await
+			.map_err(|_| Error::PipelineStall)?;
 
-		let (commit_batch, complete_rx) = CommitBatch::new(batch.count());
+		let (commit_batch, complete_rx) = CommitBatch::new(batch.count(), permit);
 		#[cfg(surrealkv_verif)]
 		crate::verif::yp("commit:permit");
 
